@@ -260,9 +260,11 @@ func CheckC20(run *Run) {
 	run.Proof = CheckProofs("C20")
 	run.Prepare()
 	reqs := MockCatalogue()
-	nCalls, nRandom := 64, 12
+	// the selector is random: with k examples per field the chance that n calls never show one of them is about
+	// k*(1-1/k)^n; 13 examples (the largest list of the catalogue) and 64 calls missed one in every 13th run
+	nCalls, nRandom := 600, 12
 	if run.Tier == "thorough" {
-		nCalls, nRandom = 400, 200
+		nCalls, nRandom = 1500, 200
 	}
 	reqs = append(reqs, RandomMockRequests(rand.New(rand.NewSource(run.Seed+20)), nRandom)...)
 	nShared := 3
@@ -490,7 +492,7 @@ func CheckC20(run *Run) {
 	}
 	run.Extra["mock_calls"] = len(scenarios)
 	run.Extra["calls_per_rpc"] = nCalls
-	run.Extra["note"] = "value sets are the distinct values seen over calls_per_rpc calls; the selectors draw uniformly from at most 4 values, so a missing value has probability < 4*(3/4)^64"
+	run.Extra["note"] = "value sets are the distinct values seen over calls_per_rpc calls; the selectors draw uniformly from at most 13 values, so a missing value has probability < 13*(12/13)^600 < 1e-19"
 	DumpResults(run)
 	run.Finish()
 }
